@@ -107,6 +107,86 @@ fn c04_extra(_: &Case, _: &[Call], out: &RunOut) -> Result<(), (&'static str, St
     }
 }
 
+mod reenter {
+    //! An argument whose `Debug` calls back into the mock: an *accepted* ordered call runs no user
+    //! code besides its matcher, so the sequence is consumed by the calls the caller makes and by
+    //! nothing else.
+    use unimock::*;
+
+    pub struct Reenter<'a>(pub &'a Unimock, pub u8);
+
+    impl core::fmt::Debug for Reenter<'_> {
+        fn fmt(&self, f: &mut core::fmt::Formatter<'_>) -> core::fmt::Result {
+            let r = std::panic::catch_unwind(std::panic::AssertUnwindSafe(|| self.0.side()));
+            write!(f, "Reenter({}, side = {:?})", self.1, r.ok())
+        }
+    }
+
+    #[unimock(api = DMock)]
+    pub trait D4 {
+        fn step(&self, p: Reenter<'_>) -> u32;
+        fn side(&self) -> u32;
+    }
+
+    /// The declared sequence: `steps` step-calls with one side-call at position `side_at`; it is
+    /// made exactly as declared. Returns what the calls answered.
+    pub fn run(steps: usize, side_at: usize) -> Result<Vec<u32>, String> {
+        let mut c = unimock::verif::DynClause::new();
+        let mut k = 0;
+        for pos in 0..=steps {
+            if pos == side_at {
+                c.push(DMock::side.next_call(matching!()).returns(900u32));
+            }
+            if pos < steps {
+                c.push(DMock::step.next_call(matching!(_)).returns(100 + k as u32));
+                k += 1;
+            }
+        }
+        let u = Unimock::new(c);
+        let mut got = vec![];
+        for pos in 0..=steps {
+            if pos == side_at {
+                got.push(vh::obs::catch(|| u.side())?);
+            }
+            if pos < steps {
+                got.push(vh::obs::catch(|| u.step(Reenter(&u, pos as u8)))?);
+            }
+        }
+        vh::obs::catch(move || drop(u))?;
+        Ok(got)
+    }
+}
+
+fn reentrant_debug_cells(ctx: &vh::explore::Ctx, stats: &mut Stats) {
+    for steps in 1..=3usize {
+        for side_at in 0..=steps {
+            ctx.tick();
+            stats.add("reentrant_debug_cells", 1);
+            stats.add("traces_validated_against_impl", 1);
+            stats.add("transitions", steps as u64 + 1);
+            let mut want = vec![];
+            let mut k = 0;
+            for pos in 0..=steps {
+                if pos == side_at {
+                    want.push(900u32);
+                }
+                if pos < steps {
+                    want.push(100 + k);
+                    k += 1;
+                }
+            }
+            let got = reenter::run(steps, side_at);
+            if got.as_ref() != Ok(&want) {
+                ctx.violation(
+                    &format!("reentrant-debug/{steps}-steps/side-at-{side_at}"),
+                    &format!("the declared sequence of {steps} step calls with a side call at position {side_at}, made exactly as declared with arguments whose Debug calls side(): expected the slot responses {want:?} and a silent verification, observed {got:?}"),
+                    J::obj().set("reentrant_debug", format!("{steps}/{side_at}")),
+                );
+            }
+        }
+    }
+}
+
 fn main() {
     vh::obs::silence_panics();
     let ctx: &'static vh::explore::Ctx = Box::leak(Box::new(vh::explore::Ctx::from_args("C04")));
@@ -263,7 +343,8 @@ fn main() {
         });
     }
     ctx.watchdog(120, || J::Str("no progress in the C04 explorer".into()));
-    let stats = explore_cases(ctx, &cases, opts, &c04_extra);
+    let mut stats = explore_cases(ctx, &cases, opts, &c04_extra);
+    reentrant_debug_cells(ctx, &mut stats);
     guard(&stats, 5, true);
     if stats.get("deviating_calls_checked") == 0 {
         vacuous("vacuous: no deviating call was checked");
